@@ -61,6 +61,11 @@ Definition hist_increase (h : hist) : hist := hist_set_size (Z.of_nat (window h)
 (* HistoryBuffer.cpp:97-101 *)
 Definition hist_clear (h : hist) : hist := mkHist (window h) [].
 
+(* HistoryBuffer.cpp:19-43, move construction / move assignment: (target, moved-from source).
+   The target takes window_ and the deque; the source is left with window_ = 0 (and state_size_ = 0,
+   not modelled) and a moved-from deque (valid but unspecified; empty with libstdc++). *)
+Definition hist_move (h : hist) : hist * hist := (mkHist (window h) (buf h), mkHist 0 []).
+
 (* operations of a directly driven HistoryBuffer (all setters return true) *)
 Inductive hop := HAdd (x : A) | HSet (w : Z) | HDec | HInc | HClear.
 Definition hstep (h : hist) (o : hop) : hist :=
@@ -75,7 +80,7 @@ Definition hrun (h : hist) (ops : list hop) : hist := fold_left hstep ops h.
 End Hist.
 Arguments mkHist {A}. Arguments window {A}. Arguments buf {A}.
 Arguments hist_add {A}. Arguments hist_get {A}. Arguments hist_set_size {A}.
-Arguments hist_decrease {A}. Arguments hist_increase {A}. Arguments hist_clear {A}.
+Arguments hist_decrease {A}. Arguments hist_increase {A}. Arguments hist_clear {A}. Arguments hist_move {A}.
 Arguments shrink_loop {A}. Arguments hstep {A}. Arguments hrun {A}.
 Arguments HAdd {A}. Arguments HSet {A}. Arguments HDec {A}. Arguments HInc {A}. Arguments HClear {A}.
 
@@ -235,6 +240,13 @@ Definition set_window (w : Z) (st : est) : est * bool :=
 (* :181-184 *)
 Definition est_clear (st : est) : est :=
   mkEst (meth st) (hist_clear (hb st)) (smw st) (wmw st) (emw st).
+
+(* EstimatesExtraction.cpp:29-62, move construction / move assignment: (target, moved-from source).
+   Every member is taken over; the source is left with method emode, a moved-from history buffer and
+   moved-from (empty) weight vectors. *)
+Definition est_move (st : est) : est * est :=
+  (mkEst (meth st) (fst (hist_move (hb st))) (smw st) (wmw st) (emw st),
+   mkEst Memode (snd (hist_move (hb st))) [] [] []).
 
 (* the public operations; result = (returned bool, returned estimate or []) *)
 Inductive op :=
